@@ -2226,3 +2226,9 @@ package sio
 //@     update n = n + 1
 //@     updateafter cb = result1
 //@   ensures n == 1 && result == cb [C12.wiring.session.callbacks.of.that.connection]
+//@ func (*serverSocket).Rooms
+//@   opt safety off
+//@   requires s != nil
+//@   callsite SocketRooms
+//@     requires recv == s.adapter && arg0 == s.id [C04.rooms.asks.for.its.own.id]
+//@   callsite NewSet skip
